@@ -423,6 +423,9 @@ class Path:
                 continue
             v = V(z3.Const(n, z(s)), s)
             self.wf(v)
+            if isinstance(s, RefS):
+                # objects handed in by the caller exist already (a fresh allocation is distinct from them)
+                self.assume(z3.Implies(v.t != 0, z3.Select(self.env.alloc, v.t)))
             loc[n] = v
         if args.vararg or args.kwarg:
             for n in [args.vararg, args.kwarg]:
@@ -1311,6 +1314,8 @@ class Path:
                 self.assume(seq_len(r) == ln,
                             z3.ForAll([j], seq_get(r, j) == tup_mk(so.elem, *[seq_get(x.t, j) for x in ins]), patterns=[seq_get(r, j)]))
                 return V(r, so)
+            if fn == "chain_":
+                pass
             if fn == "iter":
                 inner = self.iter_seq(node.args[0], env, line)
                 a0 = node.args[0]
@@ -1326,6 +1331,17 @@ class Path:
                 v, ax = ops.seq_reverse(inner)
                 self.assume(*ax)
                 return v
+        if isinstance(node, ast.Call) and isinstance(node.func, ast.Attribute) and node.func.attr == "chain" \
+                and isinstance(node.func.value, ast.Name) and node.func.value.id == "itertools":
+            # itertools.chain(a, b, ...): the concatenation of the iterations (library contract); lazy if any part is
+            parts = [self.iter_seq(a, env, line) for a in node.args]
+            acc = parts[0]
+            lazy = set(acc.lazy or ())
+            for p_ in parts[1:]:
+                acc, ax = ops.seq_concat(acc, p_)
+                self.assume(*ax)
+                lazy |= set(p_.lazy or ())
+            return V(acc.t, acc.s, lazy or None)
         v = self.ev(node, env)
         return self.as_iter_seq(v, line)
 
@@ -1668,17 +1684,25 @@ class Path:
                 t = z3.Select(map_dom(b.t), k.t)
             elif isinstance(b.s, SeqS):
                 t = ops.seq_contains(b, ops.coerce(a, b.s.elem))
-            elif isinstance(b.s, RefS) and not env.spec:
+            elif isinstance(b.s, RefS) and not env.spec and not getattr(self, "under_binder", 0):
                 fc = self.eng.find_contract(b.s.cls, "__contains__")
                 if fc is None:
                     raise Unsupported("`in` on %s without a __contains__ contract" % b.s.cls)
                 t = self.call_contract(fc, b, [a], {}, getattr(n, "lineno", 0), "__contains__").t
-            elif isinstance(b.s, RefS) and env.spec:
+            elif isinstance(b.s, RefS):
                 fc = self.eng.find_contract(b.s.cls, "__contains__")
+                if fc is None:
+                    raise Unsupported("`in` on %s without a __contains__ contract" % b.s.cls)
                 t = self.spec_call_pure(fc, b, [a], env).t
             else:
                 raise Unsupported("`in` on sort %r" % b.s)
             return z3.Not(t) if isinstance(op, ast.NotIn) else t
+        opname = {ast.Eq: "__eq__", ast.NotEq: "__ne__", ast.Lt: "__lt__", ast.LtE: "__le__", ast.Gt: "__gt__", ast.GtE: "__ge__"}.get(type(op))
+        if opname and isinstance(a.s, RefS) and isinstance(b.s, RefS) and self.eng.find_contract(a.s.cls, opname) is not None:
+            fc = self.eng.find_contract(a.s.cls, opname)
+            if env.spec or getattr(self, "under_binder", 0):
+                return self.spec_call_pure(fc, a, [b], env).t
+            return self.call_contract(fc, a, [b], {}, getattr(n, "lineno", 0), opname).t
         if isinstance(op, (ast.Eq, ast.NotEq)):
             if a.s == NONE or b.s == NONE:
                 t = ops.is_none(b if a.s == NONE else a)
@@ -1755,6 +1779,10 @@ class Path:
             return self.ev_slice(base, n.slice, env, n)
         idx = self.ev(n.slice, env)
         line = getattr(n, "lineno", 0)
+        if isinstance(base.s, OptS) and isinstance(base.s.inner, (SeqS, MapS, TupS)):
+            if not env.spec:
+                self.guard(z3.Not(opt_is_none(base.t)), "TypeError", line)
+            base = V(opt_val(base.t), base.s.inner)
         if isinstance(base.s, SeqS):
             ln = seq_len(base.t)
             if env.spec:
@@ -1902,6 +1930,10 @@ class Path:
                                               z3.And(0 <= dst(i), dst(i) < seq_len(r), src(dst(i)) == i)),
                               patterns=[dst(i)]))
         self.last_filter = (src, dst)
+        self.env.locals["g_fsrc"] = V(None, FunS([INT], INT, name=src.name()))
+        self.env.locals["g_fdst"] = V(None, FunS([INT], INT, name=dst.name()))
+        self.env.locals["g_fin"] = S
+        self.env.locals["g_fout"] = V(r, so)
         return V(r, so)
 
     def bind_target(self, tgt, v, env):
